@@ -194,6 +194,10 @@ class Context(object):
         return (pos - self.lines[p - 1] - 1)
 
 
+_MISSING = object()
+"""Marks "no first element" in :py:meth:`Parser.sep_by` so that falsy values (0, "", None, ...) are kept."""
+
+
 class _ParserMeta(type):
     """
     ParserMeta wraps every parser subclass's process function with the
@@ -223,7 +227,7 @@ class Parser(with_metaclass(_ParserMeta, Node)):
 
     @staticmethod
     def _accumulate(first, rest):
-        results = [first] if first else []
+        results = [first] if first is not _MISSING else []
         if rest:
             results.extend(rest)
         return results
@@ -233,7 +237,7 @@ class Parser(with_metaclass(_ParserMeta, Node)):
         Return a parser that matches zero or more instances of the current
         parser separated by instances of the parser sep.
         """
-        return Lift(self._accumulate) * Opt(self) * Many(sep >> self)
+        return Lift(self._accumulate) * Opt(self, _MISSING) * Many(sep >> self)
 
     def until(self, pred):
         """
